@@ -74,6 +74,22 @@ CANON = {
 }
 
 
+CHUNK_FIELDS = {'digest': 'chunk_digest', 'digest_uncompressed': 'chunk_digest_uncompressed',
+                'comp_length': 'comp_length', 'length': 'length'}
+
+
+def canon_name(name):
+    """Canonical field of a reader target / writer source.  A field of a chunk reached through a local (whatever
+    the local is called) is named by the field."""
+    if name in CANON:
+        return CANON[name]
+    if name.count('->') == 1:
+        root, f = name.split('->')
+        if root != 'zck' and f in CHUNK_FIELDS:
+            return CHUNK_FIELDS[f]
+    return name
+
+
 def reader_sequence(fn):
     """Ordered parse steps of a reader function: ('ci', target) for decoder calls, ('digest', target) for
     memcpy of a digest from the header, ('bytes5','magic') for the magic compare.  Targets that are
@@ -216,7 +232,7 @@ def canon(seq, drop_opt=True, part=None):
             if not drop_opt:
                 out.append(st)
         else:
-            name = CANON.get(st[1], st[1])
+            name = canon_name(st[1])
             if part == 'index' and st[1] == 'hash_type':
                 name = 'chunk_hash_type'     # index_read's local, handed to set_chunk_hash_type()
             out.append((st[0], name if name is not None else st[1]))
